@@ -170,7 +170,7 @@ Section Items.
     - cbn. destruct (l_stopnm st1); cbn.
       + destruct Hat1 as [ts [H1 H2]]. exists ts. split; [exact H1|]. cbn. exact H2.
       + eapply inv_same; [exact (inv_at_drop t st1 Hat1)|reflexivity..].
-    - cbn. destruct (l_stopnm st1); cbn; (eapply inv_same; [exact (inv_at_drop t st1 Hat1)|reflexivity..]).
+    - cbn. eapply inv_same; [exact (inv_at_drop t st1 Hat1)|reflexivity..].
   Qed.
 
   Lemma rstripS_prefix l : exists q, rev l = rev (rstripS l) ++ q.
@@ -297,9 +297,7 @@ Section Seq.
     - cbn. rewrite E3. destruct (l_stopnm st); cbn.
       + unfold SS. cbn. constructor. change (Sub (SS st1) (SS st)). rewrite E1. apply Sub_refl.
       + change (Sub (SS st1) (SS st)). rewrite E1. apply Sub_refl.
-    - cbn. rewrite E3. destruct (l_stopnm st); cbn.
-      + apply Sub_skip. change (Sub (SS st1) (SS st)). rewrite E1. apply Sub_refl.
-      + change (Sub (SS st1) (SS st)). rewrite E1. apply Sub_refl.
+    - cbn. apply Hw. change (Sub (SS st1) (SS st)). rewrite E1. apply Sub_refl.
   Qed.
 
   Lemma loop_seq n st r :
